@@ -38,96 +38,126 @@ func runScanner(rep *vh.Report) {
 		if len(c.Req) >= 2 || c.Err || c.StopAt > 0 {
 			rep.DistinctNontrivial++
 		}
-		var req []uint64
-		beyond := false
-		calls := 0
-		next := func(cursor uint64) (rueidis.ScanEntry, error) {
-			calls++
-			req = append(req, cursor)
-			if calls > len(c.Script) {
-				beyond = true
-				return rueidis.ScanEntry{}, errors.New("next called beyond the script")
+		// Every traversal of a Scanner starts at cursor 0 (Init of Scanner.tla), whatever happened to the Scanner before:
+		// each behaviour is replayed on a fresh Scanner and on one whose earlier traversal was abandoned by the consumer
+		// on a page with a non-zero cursor.
+		for _, reuse := range []bool{false, true} {
+			tag := ""
+			if reuse {
+				tag = " reuse=after-abandoned-traversal"
+				rep.Evaluations++
 			}
-			p := c.Script[calls-1]
-			if p.Fail {
-				return rueidis.ScanEntry{}, errScripted
-			}
-			els := make([]string, p.N)
-			for j := range els {
-				els[j] = elemName(calls, j+1)
-			}
-			return rueidis.ScanEntry{Cursor: p.Cursor, Elements: els}, nil
-		}
-		want := make([][]string, len(c.Out))
-		for k, item := range c.Out {
-			for _, e := range item {
-				want[k] = append(want[k], elemName(e[0], e[1]))
-			}
-		}
-		var got [][]string
-		runaway := false
-		sc := rueidis.NewScanner(next)
-		msg, panicked := guard(func() {
-			if c.Mode == "iter" {
-				for v := range sc.Iter() {
-					got = append(got, []string{v})
-					if len(got) == c.StopAt {
-						break
-					}
-					if len(got) > 200 {
-						runaway = true
-						break
-					}
+			var req []uint64
+			beyond := false
+			calls := 0
+			prelude := reuse
+			next := func(cursor uint64) (rueidis.ScanEntry, error) {
+				if prelude {
+					return rueidis.ScanEntry{Cursor: 7, Elements: []string{"x1", "x2", "x3", "x4"}}, nil
 				}
-			} else {
-				for a, b := range sc.Iter2() {
-					got = append(got, []string{a, b})
-					if len(got) == c.StopAt {
-						break
-					}
-					if len(got) > 200 {
-						runaway = true
-						break
-					}
+				calls++
+				req = append(req, cursor)
+				if calls > len(c.Script) {
+					beyond = true
+					return rueidis.ScanEntry{}, errors.New("next called beyond the script")
+				}
+				p := c.Script[calls-1]
+				if p.Fail {
+					return rueidis.ScanEntry{}, errScripted
+				}
+				els := make([]string, p.N)
+				for j := range els {
+					els[j] = elemName(calls, j+1)
+				}
+				return rueidis.ScanEntry{Cursor: p.Cursor, Elements: els}, nil
+			}
+			want := make([][]string, len(c.Out))
+			for k, item := range c.Out {
+				for _, e := range item {
+					want[k] = append(want[k], elemName(e[0], e[1]))
 				}
 			}
-		})
-		stop := "none"
-		if c.StopAt > 0 {
-			stop = "consumer"
-		}
-		replay := map[string]any{"case": c, "yielded": got, "requested": req}
-		switch {
-		case panicked:
-			rep.Violate("scanner mode="+c.Mode+" diff=panic", "Scanner panicked: "+msg, replay)
-			continue
-		case runaway:
-			rep.Violate("scanner mode="+c.Mode+" diff=runaway", "Scanner yielded more than 200 items for a finite script", replay)
-			continue
-		}
-		if beyond {
-			rep.Violate("scanner mode="+c.Mode+" diff=requested-beyond-end stop="+stop,
-				fmt.Sprintf("next was called %d times with cursors %v; the specification ends the scan after %v", calls, req, c.Req), replay)
-			continue
-		}
-		if !reflect.DeepEqual(got, want) && !(len(got) == 0 && len(want) == 0) {
-			rep.Violate("scanner mode="+c.Mode+" diff=yielded stop="+stop,
-				fmt.Sprintf("script %+v stopAt=%d: yielded %v, the specification yields %v", c.Script, c.StopAt, got, want), replay)
-			continue
-		}
-		if !reflect.DeepEqual(req, c.Req) && !(len(req) == 0 && len(c.Req) == 0) {
-			rep.Violate("scanner mode="+c.Mode+" diff=cursors stop="+stop,
-				fmt.Sprintf("script %+v stopAt=%d: next was called with cursors %v, the specification requests %v", c.Script, c.StopAt, req, c.Req), replay)
-			continue
-		}
-		e := sc.Err()
-		if (e != nil) != c.Err || (c.Err && !errors.Is(e, errScripted)) {
-			rep.Violate("scanner mode="+c.Mode+" diff=err stop="+stop,
-				fmt.Sprintf("script %+v stopAt=%d: Err() = %v, the specification says failure=%v", c.Script, c.StopAt, e, c.Err), replay)
-			continue
-		}
-		if i%911 == 0 {
-			rep.Sample(map[string]any{"script": c.Script, "mode": c.Mode, "stopAt": c.StopAt, "yielded": got, "requested": req, "err": fmt.Sprint(e)})
+			var got [][]string
+			runaway := false
+			sc := rueidis.NewScanner(next)
+			if reuse {
+				if _, p := guard(func() {
+					if c.Mode == "iter" {
+						for range sc.Iter() {
+							break
+						}
+					} else {
+						for range sc.Iter2() {
+							break
+						}
+					}
+				}); p {
+					continue
+				}
+				prelude = false
+			}
+			msg, panicked := guard(func() {
+				if c.Mode == "iter" {
+					for v := range sc.Iter() {
+						got = append(got, []string{v})
+						if len(got) == c.StopAt {
+							break
+						}
+						if len(got) > 200 {
+							runaway = true
+							break
+						}
+					}
+				} else {
+					for a, b := range sc.Iter2() {
+						got = append(got, []string{a, b})
+						if len(got) == c.StopAt {
+							break
+						}
+						if len(got) > 200 {
+							runaway = true
+							break
+						}
+					}
+				}
+			})
+			stop := "none"
+			if c.StopAt > 0 {
+				stop = "consumer"
+			}
+			replay := map[string]any{"case": c, "yielded": got, "requested": req, "reused": reuse}
+			switch {
+			case panicked:
+				rep.Violate("scanner mode="+c.Mode+" diff=panic"+tag, "Scanner panicked: "+msg, replay)
+				continue
+			case runaway:
+				rep.Violate("scanner mode="+c.Mode+" diff=runaway"+tag, "Scanner yielded more than 200 items for a finite script", replay)
+				continue
+			}
+			if beyond {
+				rep.Violate("scanner mode="+c.Mode+" diff=requested-beyond-end stop="+stop+tag,
+					fmt.Sprintf("next was called %d times with cursors %v; the specification ends the scan after %v", calls, req, c.Req), replay)
+				continue
+			}
+			if !reflect.DeepEqual(got, want) && !(len(got) == 0 && len(want) == 0) {
+				rep.Violate("scanner mode="+c.Mode+" diff=yielded stop="+stop+tag,
+					fmt.Sprintf("script %+v stopAt=%d: yielded %v, the specification yields %v", c.Script, c.StopAt, got, want), replay)
+				continue
+			}
+			if !reflect.DeepEqual(req, c.Req) && !(len(req) == 0 && len(c.Req) == 0) {
+				rep.Violate("scanner mode="+c.Mode+" diff=cursors stop="+stop+tag,
+					fmt.Sprintf("script %+v stopAt=%d: next was called with cursors %v, the specification requests %v", c.Script, c.StopAt, req, c.Req), replay)
+				continue
+			}
+			e := sc.Err()
+			if (e != nil) != c.Err || (c.Err && !errors.Is(e, errScripted)) {
+				rep.Violate("scanner mode="+c.Mode+" diff=err stop="+stop+tag,
+					fmt.Sprintf("script %+v stopAt=%d: Err() = %v, the specification says failure=%v", c.Script, c.StopAt, e, c.Err), replay)
+				continue
+			}
+			if i%911 == 0 && !reuse {
+				rep.Sample(map[string]any{"script": c.Script, "mode": c.Mode, "stopAt": c.StopAt, "yielded": got, "requested": req, "err": fmt.Sprint(e)})
+			}
 		}
 	}
 }
